@@ -319,7 +319,8 @@ theorem step_evalRequire (hFrag : Frag I ld fuel) (ih : AllG I ld LS fuel) :
       let symbols := (s.localSymbols menv).filter (fun n => !n.startsWith "_")
       let valueOf := fun (n : String) => (s.lookup menv n).getD RVal.null
       if unq then do
-        modifyS (fun s => symbols.foldl (fun s n => s.put env n (valueOf n)) s)
+        let exported := symbols.filter (fun n => !isModuleObj s (valueOf n))
+        modifyS (fun s => exported.foldl (fun s n => s.put env n (valueOf n)) s)
         pure RVal.null
       else match syms with
       | some (sy :: sys) => do
